@@ -4,7 +4,8 @@
 2. `lake build PPLV.Props.C11 PPLV.Gen.ResultTable`, axiom audit, forbidden-construct grep;
 3. compile harness/c11_checked.cc against the tree, check that its copy of
    Bounded_Integer_Coefficient_Policy carries the flags of src/Coefficient_types.hh;
-4. run, in parallel, one pipeline `harness | pplv_c11` per policy for the EXHAUSTIVE 8-bit tables
+4. run, in parallel, a pipeline of random straight-line coefficient computations (bounded policy with
+   the real handle_result vs mpz_class: "bounded builds never lie" on the real code), one pipeline `harness | pplv_c11` per policy for the EXHAUSTIVE 8-bit tables
    (every operand pair x op x direction x policy) and one per policy for the boundary-biased /
    random 16/32/64-bit cases; the driver runs the code-shaped model and, independently,
    evaluates K4.holds / K4.directed / overflow claim / stored-value sanity on the REAL output;
@@ -20,7 +21,7 @@ LEVEL = "proof"
 POLICIES = ["CO", "EN", "WRD", "BIC", "DBG", "CHK", "NAN", "INF"]
 SITE = {"div": "div_signed_int", "subMul": "sub_mul_int", "umod2exp": "umod_2exp_signed_int",
         "sqrt": "sqrt_signed_int", "lcm": "lcm_gcd_exact"}
-PROPERTY_OBLIGATIONS = {"holds", "directed", "overflow", "stored"}
+PROPERTY_OBLIGATIONS = {"holds", "directed", "overflow", "stored", "bounded"}
 DIRNAME = {0: "ROUND_DOWN", 1: "ROUND_UP", 6: "ROUND_IGNORE", 7: "ROUND_NOT_NEEDED"}
 MIS_RE = re.compile(r"^MISMATCH (\S+) (\S+) (.*)$")
 
@@ -86,6 +87,11 @@ def run(ctx):
         outw = os.path.join(wd, "wide_%s.out" % p)
         cmd = "%s --mode wide --policy %s --seed %d --count %d | tee %s | %s > %s" % (h, p, ctx.seed, count, jw, drv, outw)
         procs.append(("wide", p, outw, jw, subprocess.Popen(["bash", "-c", "set -o pipefail; " + cmd], env=env)))
+    # bounded builds: straight-line coefficient computations, Checked_Number<T, bounded policy> vs mpz_class
+    nprog = 40000 if ctx.tier == "quick" else 1000000
+    outp_ = os.path.join(wd, "prog.out")
+    cmd = "%s --mode prog --seed %d --count %d | %s > %s" % (h, ctx.seed, nprog, drv, outp_)
+    procs.append(("prog", "BIC", outp_, None, subprocess.Popen(["bash", "-c", "set -o pipefail; " + cmd], env=env)))
     for kind, p, outp, jw, pr in procs:
         rc = pr.wait()
         if rc != 0:
@@ -186,7 +192,10 @@ def run(ctx):
         if parse:
             ctx.violation("journal line not understood by the driver: %s" % f_, replay, found_input=False)
             continue
-        if prop != "model":
+        if opk == "prog" and prop != "model":
+            ctx.violation("a bounded-coefficient computation returned a different answer than mpz_class without throwing: %s" % f_,
+                          replay, found_input=True, record={"site": "bounded_program", "tags": []})
+        elif prop != "model":
             what = ("%s on %s/%s, %s: to0=%s x=%s y=%s e=%s: the library stored %s with result code %s, exact result %s: "
                     "clause(s) %s violated (%d such cases in this run)" % (
                         opk, f_.get("T"), f_.get("P"), DIRNAME.get(d & 7, str(d)), f_.get("to0"), f_.get("x"), f_.get("y"),
@@ -222,6 +231,8 @@ def run(ctx):
         exhaustive=True,
         exhaustive_8bit_cases=exhaustive_cases,
         wide_cases=wide_cases,
+        bounded_programs=per_op.get("prog", {}).get("n", 0),
+        bounded_programs_that_threw=per_op.get("prog", {}).get("nontrivial", 0),
         wide_distinct_nontrivial=len(seen),
         out_of_contract_skipped=total["out_of_contract"],
         flagged_cases=total["flagged"],
